@@ -351,9 +351,22 @@ def rule_vocab_denotation(db: ProgramDB) -> List[Instance]:
             out.append(inst("VOCAB-DENOTATION", VIOLATION, fn, f"entity.{fname}", "returns nothing"))
             continue
         bad = None
+        defs = local_defs(fn)
+        rebound = [a for a in own_nodes(fn.node) if isinstance(a, (ast.Assign, ast.AugAssign, ast.AnnAssign)) and any(
+            isinstance(t, ast.Name) and t.id in params[:len(want)] for t in (a.targets if isinstance(a, ast.Assign) else [a.target]))]
+        if rebound:
+            out.append(inst("VOCAB-DENOTATION", VIOLATION, fn, f"entity.{fname}",
+                            f"`{unparse(rebound[0])[:70]}` replaces the argument before the node is built: {target}(…) is then built from something other than "
+                            f"what the caller passed (the selected variable of a quantified sub-query without its conditions, an unwrapped value)",
+                            line=rebound[0].lineno))
+            continue
         for r in rets:
             v = r.value
             ok = False
+            if isinstance(v, ast.Name) and v.id not in params:
+                ds = [d for d in defs.get(v.id, []) if isinstance(d, ast.AST)]
+                if len(ds) == 1 and len(defs.get(v.id, [])) == 1:
+                    v = ds[0]           # a local assigned once: what is returned is what it was assigned
             if isinstance(v, ast.Call) and (dotted(v.func) or "").split(".")[-1] == target:
                 t = resolve_call_target(db, fn, v)
                 names = None
